@@ -737,7 +737,7 @@ theorem statsQuery_key_parts (m : StatsMode) (s : Schema) (ds : Dataset) (t : Ta
           simp only [rowsOf, List.mem_filter, Bool.and_eq_true, beq_iff_eq] at hmem
           rw [← hmem.2.2, gsKey]
           have := keyParts_joinWith ((req.columns.map t.colWithFallback).map
-            (fun c => ((mkView { schema := s, ds := ds, b := b } t r).get c).asString))
+            (fun c => ((mkView { schema := s, ds := ds, b := b } t r).get c).keyString))
           simpa using this
       · rw [hf] at hk; simp at hk
 
